@@ -30,7 +30,8 @@ MONITORS = ["roundtrip", "inside_hold"]
 REQUIRED = ["keysounded_head_joined", "dropped_orphans", "note_inside_hold", "corpus_chart",
             "tail_same_beat_between_row_notes", "by_type_two_heads_one_orphan", "note_inside_hold_in_a_multi_note_row",
             "joined_hold_nested_in_a_joined_hold_on_its_column", "run_aborted_by_an_exception_before_a_judged_run",
-            "generator_abandoned_before_a_judged_run", "distinct_beats_that_are_the_same_float"]
+            "generator_abandoned_before_a_judged_run", "distinct_beats_that_are_the_same_float",
+            "lazy_stream_of_fresh_objects_and_tuple_rows"]
 
 
 def anchors():
@@ -186,7 +187,14 @@ def roundtrip(ctx, notes, include, case):
             del g
             ctx.feat("generator_abandoned_before_a_judged_run")
         try:
-            grouped = [list(g) for g in group_notes(iter(real), **kwargs)]
+            if oi % 4 == 1:
+                # the stream as a generator of fresh note objects (nothing else keeps them alive), rows kept as tuples
+                fresh = (n._replace() for n in real)
+                grouped = tuple(tuple(g) for g in group_notes(fresh, **kwargs))
+                del fresh
+                ctx.feat("lazy_stream_of_fresh_objects_and_tuple_rows")
+            else:
+                grouped = [list(g) for g in group_notes(iter(real), **kwargs)]
         except OrphanedNoteException:
             ctx.skip("group_notes raised although the model does not (C09 decides)")
             continue
